@@ -328,8 +328,8 @@ pub fn run(a: &Args) -> i32 {
         }
         Err(e) => run.inconclusive(&format!("directed scenario {}: {}", F3, e)),
     }
-    let nbases = a.tier.pick(4, 12);
-    let per_base = a.tier.pick(44, 400);
+    let nbases = a.tier.pick(4, 24);
+    let per_base = a.tier.pick(44, 1000);
     let mut r = Rng::new(a.seed ^ 0xC15);
     // 1. fault-free runs: operation counts per class
     let mut bases = vec![];
